@@ -214,6 +214,97 @@ fn verif_packet_short_roundtrip() {
     assert!((KeyPhase::from_tag(orig[0]) == KeyPhase::One) == phase);
 }
 
+
+// receive path after the header decode: removing header protection from ANY accepted packet never
+// panics; RFC 9001 5.4.2: the sample starts 4 bytes after the start of the Packet Number field
+// ("the Packet Number field is assumed to be 4 bytes long") and "an endpoint MUST discard packets
+// that are not long enough to contain a complete sample"; 5.4.1: the low 5 bits of a short header's
+// first byte and the packet number bytes are unmasked, the packet number length is read AFTER
+// unmasking the first byte.
+struct MaskKey {
+    mask: crate::crypto::HeaderProtectionMask,
+    sample_len: usize,
+}
+
+impl crate::crypto::HeaderKey for MaskKey {
+    fn opening_header_protection_mask(&self, sample: &[u8]) -> crate::crypto::HeaderProtectionMask {
+        // the key is handed a sample of exactly the length it asked for
+        assert!(sample.len() == self.sample_len);
+        self.mask
+    }
+    fn opening_sample_len(&self) -> usize {
+        self.sample_len
+    }
+    fn sealing_header_protection_mask(&self, _sample: &[u8]) -> crate::crypto::HeaderProtectionMask {
+        self.mask
+    }
+    fn sealing_sample_len(&self) -> usize {
+        self.sample_len
+    }
+}
+impl crate::crypto::OneRttHeaderKey for MaskKey {}
+
+const N_UNPROTECT: usize = 32;
+
+#[cfg_attr(kani, kani::proof)]
+#[cfg_attr(kani, kani::unwind(9))]
+fn verif_packet_short_unprotect() {
+    let orig: [u8; N_UNPROTECT] = kani::any();
+    let len: usize = kani::any();
+    kani::assume(len >= 1 && len <= N_UNPROTECT);
+    kani::assume(orig[0] >> 6 == 0b01);
+    let key = MaskKey {
+        mask: kani::any(),
+        sample_len: if kani::any() { 16 } else { 0 },
+    };
+    let largest: u64 = kani::any();
+    // below 2^61 so that the expanded number is never clamped at the 2^62-1 ceiling
+    kani::assume(largest < (1 << 61));
+    let largest = PacketNumberSpace::ApplicationData.new_packet_number(crate::varint::VarInt::new(largest).unwrap());
+    let local_len: usize = kani::any();
+    kani::assume(local_len <= 20);
+    let remote = crate::inet::SocketAddress::default();
+    let info = ConnectionInfo::new(&remote);
+    let mut bytes = orig;
+    if let Ok((packet, _rest)) = ProtectedShort::decode(orig[0], DecoderBufferMut::new(&mut bytes[..len]), &info, &local_len) {
+        let r = match ref_short(&orig[..len], Some(local_len)) {
+            Some(r) => r,
+            None => panic!("decoder accepted a header the RFC reference rejects"),
+        };
+        let long_enough = len - r.header_len >= 4 + key.sample_len;
+        match packet.unprotect(&key, largest) {
+            Ok(encrypted) => {
+                kani::cover!(key.sample_len == 16 && key.mask[0] & 0x04 != 0, "16-byte sample, key phase bit masked");
+                kani::cover!(key.sample_len == 0 && len == r.header_len + 4, "shortest packet that can be unprotected");
+                assert!(long_enough);
+                let first = orig[0] ^ (key.mask[0] & 0x1f);
+                let pn_len = (first & 0x03) as usize + 1;
+                assert!(encrypted.payload.get_tag() == first);
+                // 17.3.1: the key phase is bit 0x04 of the UNMASKED first byte
+                assert!((encrypted.key_phase == KeyPhase::One) == (first & 0x04 != 0));
+                assert!((encrypted.spin_bit == SpinBit::One) == r.spin);
+                assert!(encrypted.payload.header_len == r.header_len);
+                assert!(encrypted.payload.packet_number_len.bytesize() == pn_len);
+                let mut want: u64 = 0;
+                let mut i = 0;
+                while i < pn_len {
+                    want = (want << 8) | (orig[r.header_len + i] ^ key.mask[1 + i]) as u64;
+                    i += 1;
+                }
+                assert!(encrypted.packet_number.as_u64() & ((1u64 << (8 * pn_len)) - 1) == want);
+                let j: usize = kani::any();
+                if j >= 1 && j < len && !(j >= r.header_len && j < r.header_len + pn_len) {
+                    assert!(encrypted.payload.buffer.peek().into_less_safe_slice()[j] == orig[j]);
+                }
+            }
+            Err(_) => {
+                kani::cover!(len == r.header_len + 3, "discarded: too short for a sample");
+                assert!(!long_enough);
+            }
+        }
+    }
+}
+
 // ---- generated by tools/fixup.py: native replay entry ----
 #[cfg(not(kani))]
 #[test]
@@ -222,5 +313,6 @@ fn verif_replay() {
         ("verif_packet_short_decode_diff", verif_packet_short_decode_diff),
         ("verif_packet_short_fixed_len_validator", verif_packet_short_fixed_len_validator),
         ("verif_packet_short_roundtrip", verif_packet_short_roundtrip),
+        ("verif_packet_short_unprotect", verif_packet_short_unprotect),
     ]);
 }
